@@ -25,8 +25,9 @@ VARIABLES tid, l,
           epoch,     \* epoch[i]: number of deletions of the attribute of instance i so far
           runEpoch,  \* runEpoch[r]: the epoch in which run r started
           runner,    \* runner[r]: the task whose await runs the getter
-          mustFail   \* mustFail[t]: the getter run by t's await failed -- the await has to raise
-vars == <<tid, l, cached, runInst, runOk, running, holds, seen, epoch, runEpoch, runner, mustFail>>
+          mustFail,  \* mustFail[t]: the getter run by t's await failed -- the await has to raise
+          since      \* since[t]: values that became cached for the held attribute since t took it
+vars == <<tid, l, cached, runInst, runOk, running, holds, seen, epoch, runEpoch, runner, mustFail, since>>
 
 Cfg == Traces[tid].cfg
 Ev == Traces[tid].ev
@@ -42,11 +43,13 @@ Init == /\ tid \in 1..NT /\ l = 0
         /\ seen = [t \in 1..Traces[tid].cfg.tasks |-> 0]
         /\ epoch = [i \in 1..Traces[tid].cfg.insts |-> 0] /\ runEpoch = <<>> /\ runner = <<>>
         /\ mustFail = [t \in 1..Traces[tid].cfg.tasks |-> FALSE]
+        /\ since = [t \in 1..Traces[tid].cfg.tasks |-> {}]
         /\ TLCSet(Reg(tid), 0)
 
 Access == /\ Is("access") /\ holds[E.t] = 0
           /\ holds' = [holds EXCEPT ![E.t] = E.i]
           /\ seen' = [seen EXCEPT ![E.t] = cached[E.i]]
+          /\ since' = [since EXCEPT ![E.t] = {}]
           /\ UNCHANGED <<cached, runInst, runOk, running, epoch, runEpoch, runner, mustFail>> /\ Consume
 
 \* the getter runs only when no value is cached; with a lock never two runs at once for the
@@ -58,7 +61,7 @@ GStart == /\ Is("gstart") /\ E.r = Len(runInst) + 1
           /\ runInst' = Append(runInst, E.i) /\ runOk' = Append(runOk, FALSE)
           /\ runEpoch' = Append(runEpoch, epoch[E.i]) /\ runner' = Append(runner, E.t)
           /\ running' = running \cup {E.r}
-          /\ UNCHANGED <<cached, holds, seen, epoch, mustFail>> /\ Consume
+          /\ UNCHANGED <<cached, holds, seen, epoch, mustFail, since>> /\ Consume
 
 \* a run that returns caches its value; a failed or cancelled one caches nothing
 GEnd == /\ Is("gend") /\ E.r \in running
@@ -66,6 +69,7 @@ GEnd == /\ Is("gend") /\ E.r \in running
         /\ runOk' = [runOk EXCEPT ![E.r] = E.ok]
         /\ cached' = IF E.ok THEN [cached EXCEPT ![runInst[E.r]] = E.r] ELSE cached
         /\ mustFail' = IF E.ok \/ runner[E.r] = 0 THEN mustFail ELSE [mustFail EXCEPT ![runner[E.r]] = TRUE]
+        /\ since' = IF E.ok THEN [t \in DOMAIN since |-> IF holds[t] = runInst[E.r] THEN since[t] \cup {E.r} ELSE since[t]] ELSE since
         /\ UNCHANGED <<runInst, holds, seen, epoch, runEpoch, runner>> /\ Consume
 
 \* an await returns a value some getter run of that instance returned: the value that
@@ -73,24 +77,28 @@ GEnd == /\ Is("gend") /\ E.r \in running
 \* cached when the await completes
 Got == /\ Is("got") /\ holds[E.t] = E.i /\ ~mustFail[E.t]     \* a failed getter surfaces to its awaiter
        /\ E.v \in 1..Len(runInst) /\ runInst[E.v] = E.i /\ runOk[E.v]
-       /\ E.v = (IF seen[E.t] # 0 THEN seen[E.t] ELSE cached[E.i])
+       /\ IF seen[E.t] # 0 THEN E.v = seen[E.t]
+          ELSE \/ E.v = cached[E.i]
+               \* a lock whose release suspends lets a deletion slip in between the moment the value
+               \* was stored / seen under the lock and the moment the await returns it
+               \/ Cfg.exitsusp /\ (runner[E.v] = E.t \/ E.v \in since[E.t])
        /\ holds' = [holds EXCEPT ![E.t] = 0]
-       /\ UNCHANGED <<cached, runInst, runOk, running, seen, epoch, runEpoch, runner, mustFail>> /\ Consume
+       /\ UNCHANGED <<cached, runInst, runOk, running, seen, epoch, runEpoch, runner, mustFail, since>> /\ Consume
 
 Err == /\ Is("err") /\ holds[E.t] # 0 /\ E.same
        /\ holds' = [holds EXCEPT ![E.t] = 0]
        /\ mustFail' = [mustFail EXCEPT ![E.t] = FALSE]
-       /\ UNCHANGED <<cached, runInst, runOk, running, seen, epoch, runEpoch, runner>> /\ Consume
+       /\ UNCHANGED <<cached, runInst, runOk, running, seen, epoch, runEpoch, runner, since>> /\ Consume
 
 DelE == /\ Is("del")
         /\ cached' = [cached EXCEPT ![E.i] = 0]
         /\ epoch' = [epoch EXCEPT ![E.i] = @ + 1]
-        /\ UNCHANGED <<runInst, runOk, running, holds, seen, runEpoch, runner, mustFail>> /\ Consume
+        /\ UNCHANGED <<runInst, runOk, running, holds, seen, runEpoch, runner, mustFail, since>> /\ Consume
 
 \* at rest no lock is held and nothing is computing; the attribute shows the cached value
 Quiesce == /\ Is("quiesce") /\ running = {} /\ E.held = 0
            /\ \A i \in DOMAIN cached : E.slots[i] = cached[i]
-           /\ UNCHANGED <<cached, runInst, runOk, running, holds, seen, epoch, runEpoch, runner, mustFail>> /\ Consume
+           /\ UNCHANGED <<cached, runInst, runOk, running, holds, seen, epoch, runEpoch, runner, mustFail, since>> /\ Consume
 
 Next == Access \/ GStart \/ GEnd \/ Got \/ Err \/ DelE \/ Quiesce
 Spec == Init /\ [][Next]_vars
